@@ -1,8 +1,14 @@
 /-
 C01 — concrete shapes on which the full statement of script agreement is false
 (`∀ s, circuitUni s = .ok (nativeUni s)`, `∀ s, circuitBatch s = .ok (nativeBatch s)`), each replayed on
-the real code by the harness (targets `unizk/*/fib`, `uni/*/add-nonext`, `uni/*/mul-prenonext`,
-`batch/*/mul-prenonext`), and non-vacuity of the hypotheses of the `…_partial` theorems.
+the real code by the harness (targets `uni/*/mul-prenonext`, `batch/*/mul-prenonext`), and non-vacuity of the hypotheses of the `…_partial` theorems.
+
+Record (no longer a witness): until /repo b026681 the uni circuit observed the opened values without
+the hiding PCS's random values, and `circuitUni (fib true) ≠ .ok (nativeUni (fib true))` was proved
+here (`uni_zk_scripts_differ`, 28 vs 38 absorbed names; finding F-C01-4). With the repaired
+observation the shape is inside `WFUni` and the scripts are equal: `uni_zk_scripts_equal` below.
+Likewise, until fixes/C01-1 the uni circuit could not be built for an AIR that opens no next trace row
+(`circuitUni addNoNext = .error …`, finding F-C01-1); now `uni_nonext_scripts_equal`.
 -/
 import P3R.Props.C01
 
@@ -26,25 +32,28 @@ def mulPreNoNext : Shape :=
   { zk := false, D := 4, nrc := 0, insts := [⟨1, 0, 2, true, false, 1, 0, 3⟩],
     friRounds := 2, finalPolyLen := 1, queries := 2, commitPowBits := 1, queryPowBits := 1 }
 
-/-- Uni-STARK with the hiding PCS: the circuit is built, but its transcript is not the native one
-(the FRI random opened values are not absorbed with the opened values). -/
-theorem uni_zk_scripts_differ : circuitUni (fib true) ≠ .ok (nativeUni (fib true)) := by
-  intro h
-  have h' : (circuitUni (fib true)).toOption = some (nativeUni (fib true)) := by rw [h]; rfl
-  exact absurd h' (by decide)
+/-- Uni-STARK with the hiding PCS (regression record of F-C01-4): same script as native. -/
+theorem uni_zk_scripts_equal : circuitUni (fib true) = .ok (nativeUni (fib true)) :=
+  uni_scripts_equal_partial _ (fun h => by cases h)
 
-/-- More precisely the native verifier absorbs strictly more. -/
-theorem uni_zk_native_absorbs_more :
-    ((circuitUni (fib true)).toOption.map (·.observed.length)) = some 28
+/-- Both sides absorb the same 38 names (the circuit absorbed 28 before the repair). -/
+theorem uni_zk_absorbed :
+    ((circuitUni (fib true)).toOption.map (·.observed.length)) = some 38
       ∧ (nativeUni (fib true)).observed.length = 38 := by decide
 
-theorem uni_nonext_rejected : ∃ e, circuitUni addNoNext = .error e := ⟨_, rfl⟩
+/-- An AIR that opens no next trace row (regression record of F-C01-1): same script as native. -/
+theorem uni_nonext_scripts_equal : circuitUni addNoNext = .ok (nativeUni addNoNext) :=
+  uni_scripts_equal_partial _ (fun h => by cases h)
 theorem uni_prenonext_rejected : ∃ e, circuitUni mulPreNoNext = .error e := ⟨_, rfl⟩
 theorem batch_prenonext_rejected : ∃ e, circuitBatch mulPreNoNext = .error e := ⟨_, rfl⟩
 
 /-- Hence the unconditional statements are false. -/
-theorem uni_scripts_equal_full_false : ¬ ∀ s, circuitUni s = .ok (nativeUni s) :=
-  fun h => uni_zk_scripts_differ (h _)
+theorem uni_scripts_equal_full_false : ¬ ∀ s, circuitUni s = .ok (nativeUni s) := by
+  intro h
+  have := h mulPreNoNext
+  obtain ⟨e, he⟩ := uni_prenonext_rejected
+  rw [he] at this
+  cases this
 
 theorem batch_scripts_equal_full_false : ¬ ∀ s, circuitBatch s = .ok (nativeBatch s) := by
   intro h
@@ -55,17 +64,17 @@ theorem batch_scripts_equal_full_false : ¬ ∀ s, circuitBatch s = .ok (nativeB
 
 /-- The witnesses are exactly outside the hypotheses. -/
 theorem witnesses_falsify_wf :
-    ¬ WFUni (fib true) ∧ ¬ WFUni addNoNext ∧ ¬ WFUni mulPreNoNext ∧ ¬ WFBatch mulPreNoNext := by
-  refine ⟨?_, ?_, ?_, ?_⟩
-  · rintro ⟨h, _⟩; cases h
-  · rintro ⟨_, h, _⟩; cases h
-  · rintro ⟨_, _, h⟩; exact absurd (h rfl) (by decide)
+    ¬ WFUni mulPreNoNext ∧ ¬ WFBatch mulPreNoNext := by
+  refine ⟨?_, ?_⟩
+  · intro h; exact absurd (h rfl) (by decide)
   · rintro ⟨_, h⟩
     exact absurd (h _ (List.mem_singleton.mpr rfl) rfl) (by decide)
 
 /-! non-vacuity of the hypotheses -/
 
-example : WFUni (fib false) := ⟨rfl, rfl, fun h => by cases h⟩
+example : WFUni (fib false) := fun h => by cases h
+example : WFUni (fib true) := fun h => by cases h
+example : WFUni addNoNext := fun h => by cases h
 example : WFBatch (fib true) := ⟨by decide, fun x hx h => by
   have := List.mem_singleton.mp hx; subst this; cases h⟩
 
